@@ -92,6 +92,13 @@ func (d *PathDecoder) completionAtPos(ctx context.Context, body *hclsyntax.Body,
 
 	for _, block := range body.Blocks {
 		if block.Range().ContainsPos(pos) {
+			if block.TypeRange.ContainsPos(pos) || block.TypeRange.End.Byte == pos.Byte {
+				// the block type itself is being (re)typed, whether or not it is known yet
+				prefixRng := block.TypeRange
+				prefixRng.End = pos
+				return d.bodySchemaCandidates(ctx, body, bodySchema, prefixRng, block.Range()), nil
+			}
+
 			blockSchema, ok := bodySchema.Blocks[block.Type]
 			if !ok {
 				return lang.ZeroCandidates(), &PositionalError{
